@@ -189,7 +189,14 @@ def rule_storage(ctx: Ctx) -> None:
             fs = facts_at(cfg, c)
             ok = any(f.op == "lt" and not f.pos and norm(f.left) == "new_value.version" and norm(f.right) == "old_value.version" for f in fs)
             ctx.check(ok, "version-monotone", put, c, "replacement only when new.version >= old.version", "a stored newer version can be replaced by an older one", [str(f) for f in fs])
-    ctx.floor("version-monotone", n, 2)
+    ctx.floor("version-monotone", n, 1)
+    ins = [c for c in body_calls if call_name(c) == "insert" and len(c.args) == 2 and norm(c.args[1]) == "new_value"]
+    assigns_old = [s for st in tr[0].body for s in ast.walk(st) if isinstance(s, ast.Assign) and any(norm(t).startswith("old_value.") for t in s.targets)]
+    copied = {norm(t).split(".", 1)[1] for s in assigns_old for t in s.targets}
+    ok = bool(ins) and not assigns_old or {"data", "max_age", "last_update", "version"} <= copied
+    ctx.check(ok, "version-monotone", put, put.node, "an accepted update stores the new Value (with its version)",
+              f"Storage.put refreshes the old entry in place (fields {sorted(copied)}) without carrying the new version over: the entry keeps its first version, "
+              "so a later stale version passes the `>=` guard and overwrites newer data")
     d = single_def(put, "old_value")
     ok = d is not None and norm(d[0]) == "self.items[key][index]" and norm(single_def(put, "index")[0]) == "self.items[key].index(new_value)"
     ctx.check(ok, "version-monotone", put, put.node, "old value = the stored value with the same id", "the version is compared with a different entry")
